@@ -18,20 +18,59 @@ def built_props():
     return sorted(f[:-3].upper() for f in os.listdir(RULES) if f.startswith("c") and f.endswith(".py") and f[1:3].isdigit())
 
 
+def _check_all(d, props):
+    out = {}
+    for p in props:
+        r = subprocess.run(["/verif/check", p, "--root", d, "--no-evidence"], capture_output=True, text=True)
+        lines = [l for l in r.stdout.splitlines() if " rule=" in l and not l.startswith("info")]
+        err = [l for l in r.stdout.splitlines() if l.startswith("ANALYSIS-ERROR")]
+        out[p] = (r.returncode, lines, err)
+    return out
+
+
+def _key(line):
+    import re
+    m = re.search(r"rule=(\S+) construct=(.*?) ::", line)
+    return (m.group(1), m.group(2)) if m else line
+
+
 def run_one(sid, props, base=SEEDED):
+    """Apply the change to a scratch copy of /repo/flow and run the checks. A change that no longer applies (a later fix: commit touched the
+    same lines) is evaluated on the newest ancestor commit it applies to; only what it ADDS to that tree's own report counts."""
     d = tempfile.mkdtemp(prefix="vseed.", dir="/tmp")
+    patch = os.path.join(base, sid, "patch.diff")
     try:
         shutil.copytree("/repo/flow", os.path.join(d, "flow"))
-        ap = subprocess.run(["git", "apply", os.path.join(base, sid, "patch.diff")], cwd=d, capture_output=True, text=True)
-        if ap.returncode != 0:
-            return sid, {"error": "patch does not apply: " + ap.stderr[:200]}
-        res = {}
-        for p in props:
-            r = subprocess.run(["/verif/check", p, "--root", d, "--no-evidence"], capture_output=True, text=True)
-            lines = [l for l in r.stdout.splitlines() if " rule=" in l and not l.startswith("info")]
-            err = [l for l in r.stdout.splitlines() if l.startswith("ANALYSIS-ERROR")]
-            res[p] = {"rc": r.returncode, "first": (lines or err or [""])[0][:240]}
-        return sid, res
+        ap = subprocess.run(["git", "apply", patch], cwd=d, capture_output=True, text=True)
+        if ap.returncode == 0:
+            res = {}
+            for p, (rc, lines, err) in _check_all(d, props).items():
+                res[p] = {"rc": rc, "first": (lines or err or [""])[0][:240]}
+            return sid, res
+        commits = subprocess.run(["git", "-C", "/repo", "log", "--format=%H", "-n", "40"], capture_output=True, text=True).stdout.split()[1:]
+        for c in commits:
+            shutil.rmtree(os.path.join(d, "flow"), ignore_errors=True)
+            if subprocess.run(f"git -C /repo archive {c} flow | tar -x -C {d}", shell=True).returncode != 0:
+                continue
+            if subprocess.run(["git", "apply", "--check", patch], cwd=d, capture_output=True).returncode != 0:
+                continue
+            before = _check_all(d, props)
+            subprocess.run(["git", "apply", patch], cwd=d, capture_output=True)
+            after = _check_all(d, props)
+            res = {}
+            for p in props:
+                brc, bl, be = before[p]
+                arc, al, ae = after[p]
+                bk = {_key(l) for l in bl}
+                added = [l for l in al if _key(l) not in bk]
+                if arc == 2 and brc != 2:
+                    res[p] = {"rc": 2, "first": (ae or [""])[0][:200] + f" [on ancestor {c[:7]}]"}
+                elif added:
+                    res[p] = {"rc": 1, "first": added[0][:200] + f" [on ancestor {c[:7]}]"}
+                else:
+                    res[p] = {"rc": 0, "first": ""}
+            return sid, res
+        return sid, {"error": "patch applies neither to /repo nor to one of its last 40 ancestors: " + ap.stderr[:120]}
     finally:
         shutil.rmtree(d, ignore_errors=True)
 
